@@ -125,7 +125,7 @@ macro_rules! core_mult {
     };
 }
 
-// @h prop=C05 unwind=7 timeout=120 what=add_core,1x1..3x3_limbs,all_limb_values,vs_u128
+// @h prop=C05 unwind=7 timeout=600 what=add_core,1x1..3x3_limbs,all_limb_values,vs_u128
 core_add!(core_add_1x1, 1, 1);
 // @h prop=C05 unwind=7 timeout=120
 core_add!(core_add_1x2, 1, 2);
@@ -144,7 +144,7 @@ core_add!(core_add_3x2, 3, 2);
 // @h prop=C05 unwind=7 timeout=120
 core_add!(core_add_3x3, 3, 3);
 
-// @h prop=C05 unwind=7 timeout=120 what=sub_core,|a-b|_and_swapped_flag,vs_u128
+// @h prop=C05 unwind=7 timeout=600 what=sub_core,|a-b|_and_swapped_flag,vs_u128
 core_sub!(core_sub_1x1, 1, 1);
 // @h prop=C05 unwind=7 timeout=120
 core_sub!(core_sub_1x2, 1, 2);
@@ -163,7 +163,7 @@ core_sub!(core_sub_3x2, 3, 2);
 // @h prop=C05 unwind=7 timeout=120
 core_sub!(core_sub_3x3, 3, 3);
 
-// @h prop=C05 unwind=7 timeout=120 what=less_core_both_directions,vs_u128
+// @h prop=C05 unwind=7 timeout=600 what=less_core_both_directions,vs_u128
 core_less!(core_less_1x1, 1, 1);
 // @h prop=C05 unwind=7 timeout=120
 core_less!(core_less_1x2, 1, 2);
@@ -177,7 +177,7 @@ core_less!(core_less_2x3, 2, 3);
 core_less!(core_less_3x3, 3, 3);
 
 // family 2: schoolbook multiplication vs sum of partial products
-// @h prop=C05 unwind=8 timeout=240 what=mult_core_vs_sum_of_32x32_partial_products,top_slack_limb_zero
+// @h prop=C05 unwind=8 timeout=900 what=mult_core_vs_sum_of_32x32_partial_products,top_slack_limb_zero
 core_mult!(core_mult_1x1, 1, 1);
 // @h prop=C05 unwind=8 timeout=240
 core_mult!(core_mult_1x2, 1, 2);
@@ -256,7 +256,7 @@ macro_rules! pub_addsub {
         }
     };
 }
-// @h prop=C05 unwind=8 timeout=300 what=BigNum::add/sub,signs_symbolic,result_value_vs_i128_and_normal_form
+// @h prop=C05 unwind=8 timeout=900 what=BigNum::add/sub,signs_symbolic,result_value_vs_i128_and_normal_form
 pub_addsub!(pub_addsub_1x1, 1, 1);
 // @h prop=C05 unwind=8 timeout=300
 pub_addsub!(pub_addsub_1x2, 1, 2);
@@ -289,7 +289,7 @@ macro_rules! pub_cmp {
         }
     };
 }
-// @h prop=C05 unwind=14 timeout=300 what=eq,partial_cmp,neg,minus,signs_symbolic
+// @h prop=C05 unwind=14 timeout=900 what=eq,partial_cmp,neg,minus,signs_symbolic
 pub_cmp!(pub_cmp_1x1, 1, 1);
 // @h prop=C05 unwind=14 timeout=300
 pub_cmp!(pub_cmp_1x2, 1, 2);
@@ -300,7 +300,7 @@ pub_cmp!(pub_cmp_3x3, 3, 3);
 // @h prop=C05 unwind=18 timeout=600 tier=thorough
 pub_cmp!(pub_cmp_2x3, 2, 3);
 
-// @h prop=C05 unwind=8 timeout=300 what=BigNum::mul_sign_dispatch_1x1_vs_i128
+// @h prop=C05 unwind=8 timeout=900 what=BigNum::mul_sign_dispatch_1x1_vs_i128
 #[cfg_attr(kani, kani::proof)]
 pub fn pub_mul_1x1() {
     let a = any_bn::<1>();
@@ -352,7 +352,7 @@ pub_div!(pub_div_d7, 7u32);
 // ---------------------------------------------------------------------------
 // family 7: construction from a machine integer
 // ---------------------------------------------------------------------------
-// @h prop=C05 unwind=6 timeout=120 what=BigNum::new(isize),all_2^64_values,value_preserved
+// @h prop=C05 unwind=6 timeout=600 what=BigNum::new(isize),all_2^64_values,value_preserved
 #[cfg_attr(kani, kani::proof)]
 pub fn new_isize() {
     let n = any_isize();
@@ -364,7 +364,7 @@ pub fn new_isize() {
     std::mem::forget(r);
 }
 
-// @h prop=C05 unwind=8 timeout=120 what=from_vec_strips_leading_zero_limbs
+// @h prop=C05 unwind=8 timeout=600 what=from_vec_strips_leading_zero_limbs
 #[cfg_attr(kani, kani::proof)]
 pub fn from_vec_3() {
     let l: [u32; 3] = any_u32_arr();
@@ -376,7 +376,7 @@ pub fn from_vec_3() {
 }
 
 // vacuity twin of the family: must FAIL
-// @h prop=C05 unwind=7 timeout=120 kind=twin
+// @h prop=C05 unwind=7 timeout=600 kind=twin
 #[cfg_attr(kani, kani::proof)]
 pub fn twin_core_add() {
     let a: [u32; 2] = any_u32_arr();
@@ -573,7 +573,7 @@ pub(crate) fn m_new1(n: isize) -> BigNum {
 // ---------------------------------------------------------------------------
 // family 5: rem formula and gcd loop (real), over modelled one-limb div/mul/sub resp. rem
 // ---------------------------------------------------------------------------
-// @h prop=C05 unwind=6 timeout=300 what=BigNum::rem=a-(a/b)*b:a=q*b+r,sign_of_dividend,|r|<|b|;one-limb_operands_full_32_bit,both_signs
+// @h prop=C05 unwind=6 timeout=900 what=BigNum::rem=a-(a/b)*b:a=q*b+r,sign_of_dividend,|r|<|b|;one-limb_operands_full_32_bit,both_signs
 #[cfg_attr(kani, kani::proof)]
 #[cfg_attr(kani, kani::stub(BigNum::div, m_div))]
 #[cfg_attr(kani, kani::stub(BigNum::mul, m_mul))]
@@ -629,7 +629,7 @@ fn gcd_body(x: u32, y: u32, px: bool, py: bool) {
     std::mem::forget((a, b, g));
 }
 
-// @h prop=C05 unwind=14 timeout=300 mem=12 what=BigNum::gcd_Euclid_loop_over_modelled_rem,8-bit_operands,both_signs,terminates_within_13_iterations
+// @h prop=C05 unwind=14 timeout=900 mem=12 what=BigNum::gcd_Euclid_loop_over_modelled_rem,8-bit_operands,both_signs,terminates_within_13_iterations
 #[cfg_attr(kani, kani::proof)]
 #[cfg_attr(kani, kani::stub(BigNum::rem, m_rem))]
 pub fn gcd_loop8() {
@@ -678,7 +678,7 @@ macro_rules! assign_agree {
         }
     };
 }
-// @h prop=C05 unwind=8 timeout=300 what=a+=b_equals_a+b_structurally
+// @h prop=C05 unwind=8 timeout=900 what=a+=b_equals_a+b_structurally
 assign_agree!(assign_add_1x1, 1, 1, +, +=);
 // @h prop=C05 unwind=8 timeout=300
 assign_agree!(assign_sub_1x1, 1, 1, -, -=);
@@ -691,7 +691,7 @@ assign_agree!(assign_mul_1x1, 1, 1, *, *=);
 
 // div/rem in place: the underlying pure operations are stubbed by their one-limb models, the
 // subject is the glue (`set_move(&*self / rhs)`)
-// @h prop=C05 unwind=6 timeout=300 what=a/=b,a%=b_equal_a/b,a%b(glue_over_modelled_div/rem)
+// @h prop=C05 unwind=6 timeout=900 what=a/=b,a%=b_equal_a/b,a%b(glue_over_modelled_div/rem)
 #[cfg_attr(kani, kani::proof)]
 #[cfg_attr(kani, kani::stub(BigNum::div, m_div))]
 #[cfg_attr(kani, kani::stub(BigNum::rem, m_rem))]
